@@ -595,6 +595,13 @@ pub fn random_rule(rng: &mut Rng, id: &str, absolute: bool) -> RuleSpec {
         // several ip ranges that contain the example addresses
         r.ips = Some(vec![IpSpec::In("10.0.0.0/8".into()), IpSpec::In("10.1.0.0/16".into())]);
     }
+    if rng.chance(1, 12) {
+        // an ip range together with an *excluded* method list: the rule sits alone in the exclusion bucket of its
+        // ip-range bucket
+        r.ips = Some(vec![IpSpec::In("10.0.0.0/8".into())]);
+        r.methods = Some(vec![rng.pick(&["DELETE", "PUT"]).to_string()]);
+        r.exclude_methods = Some(true);
+    }
     if rng.chance(1, 6) {
         r.headers = vec![HeaderCond { name: "X-A".into(), kind: "is_defined".into(), value: None }];
     }
@@ -751,7 +758,8 @@ pub fn random_case(rng: &mut Rng) -> Case {
         let u = if absolute { format!("http://example.org{own}") } else { own };
         impact_rule.effects.examples = Some(vec![example_json(rng, &u, true, vec![])]);
     }
-    Case {
+    let ip_literal_host = absolute && rng.chance(1, 5);
+    let case = Case {
         cfg,
         base,
         added,
@@ -763,7 +771,13 @@ pub fn random_case(rng: &mut Rng) -> Case {
         impact_rule,
         impact_action: rng.pick(&["add", "update", "delete"]).to_string(),
         order_seed: rng.next_u64(),
+    };
+    if ip_literal_host {
+        // one of the project's hosts is an IP literal (rule hosts, targets, example URLs and project domains alike)
+        let j = serde_json::to_string(&case).unwrap().replace("other.net", "192.168.1.10");
+        return serde_json::from_str(&j).unwrap();
     }
+    case
 }
 
 fn record(ctx: &Ctx, case: &Case, report: &mut Report) {
